@@ -73,6 +73,10 @@ def images(shape=0):
     if shape >= 1:
         u = image(m, path="Server/x86_64/iso/unified.iso", itype="dvd", disc=2, unified=True, av=["Client", "Workstation"])
         m.add("Server", "x86_64", u)
+        if shape == 2:
+            # the manifest as a reader produces it: one Image object per listed record, so a unified image
+            # filed under several variants/arches is several distinct objects with the same path
+            u = image(m, path="Server/x86_64/iso/unified.iso", itype="dvd", disc=2, unified=True, av=["Client", "Workstation"])
         m.add("Client", "x86_64", u)
         m.add("Client", "ppc64le", image(m, path="Client/ppc64le/images/disk.qcow2", itype="qcow2", fmt="qcow2", arch="ppc64le",
                                           subvariant="Cloud"))
@@ -166,7 +170,7 @@ def discinfo(shape=0):
     return d
 
 
-NSHAPES = {"composeinfo": 3, "images": 2, "rpms": 2, "modules": 2, "extra_files": 2, "treeinfo": 4, "discinfo": 2}
+NSHAPES = {"composeinfo": 3, "images": 3, "rpms": 2, "modules": 2, "extra_files": 2, "treeinfo": 4, "discinfo": 2}
 
 
 def build(fmt, shape=0):
